@@ -316,11 +316,19 @@ func run(c *rig.Ctx) {
 	c.MarkExhaustive("every source page 00-F1, LCD off and on")
 
 	// (2) restarts at every cycle 0..170 of a running transfer
-	reps := c.N(2, 24)
+	reps := c.N(4, 24)
 	c.Part("restarts", 171*reps, func(i int64, r *rig.Rng) {
 		at := int(i % 171)
 		w := newWorld(c, r, r.Chance(1, 4))
 		p1, p2 := uint8(r.Intn(0xf2)), uint8(r.Intn(0xf2))
+		switch (i / 171) % 4 {
+		case 1:
+			p2 = 0x00 // the extreme page numbers as restart targets
+		case 2:
+			p2 = 0xf1
+		case 3:
+			p1 = 0x00
+		}
 		if r.Chance(1, 3) {
 			w.lcdToggleAt = r.Intn(330)
 		}
